@@ -160,6 +160,9 @@ Record clsuite := { SECPARAM : Z; QSEC : Z; ln : Z; lm : Z; lin : Z; le : Z; ls 
 (* the harness's own small suite (harness/implrun/src/cl.rs, struct Toy) *)
 Definition toy_suite : clsuite :=
   {| SECPARAM := 192; QSEC := 19; ln := 384; lm := 256; lin := 256; le := 258; ls := 896 |}.
+(* a second harness suite whose ln is not 2 * SECPARAM (struct Toy2) *)
+Definition toy2_suite : clsuite :=
+  {| SECPARAM := 192; QSEC := 19; ln := 448; lm := 256; lin := 256; le := 258; ls := 960 |}.
 (* constants of Boudot2000RangeProof (src/cl03/range_proof.rs): the proof uses its own copies *)
 Record bparams := { b_t : Z; b_l : Z; b_s : Z; b_s1 : Z; b_s2 : Z }.
 (* blinding margin added by the sigma protocols (src/cl03/sigma_protocols.rs, const MASK) *)
